@@ -274,7 +274,7 @@ impl C17 {
         };
         let n = ALPHABET.len() as u64;
         if ctx.flavour == Flavour::Miri {
-            return Families::new(vec![("directed", directed().len() as u64), ("len-1", n), ("len-2", 40), ("len-3", 40), ("cuts", 4), ("random", 40), ("valgrind-prompt", 0), ("prompt-binary", 0)]);
+            return Families::new(vec![("directed", directed().len() as u64), ("len-1", n), ("len-2", 40), ("len-3", 40), ("cuts", 4), ("random", 40), ("valgrind-prompt", 0), ("prompt-binary", 0), ("prompt-on-a-terminal", 0)]);
         }
         let (l3, cuts) = match (ctx.flavour, ctx.tier) {
             (Flavour::Rel, Tier::Quick) => (n * n * n, 600),
@@ -283,7 +283,7 @@ impl C17 {
         };
         let vg = if ctx.flavour == Flavour::Rel { directed().len() as u64 + ctx.tier.pick(0, 200) } else { 0 };
         let pb = if ctx.flavour == Flavour::Rel { directed().len() as u64 + n + n * n + ctx.tier.pick(400, 20_000) } else { 0 };
-        Families::new(vec![("directed", directed().len() as u64), ("len-1", n), ("len-2", n * n), ("len-3", l3), ("cuts", cuts), ("random", rnd), ("valgrind-prompt", vg), ("prompt-binary", pb)])
+        Families::new(vec![("directed", directed().len() as u64), ("len-1", n), ("len-2", n * n), ("len-3", l3), ("cuts", cuts), ("random", rnd), ("valgrind-prompt", vg), ("prompt-binary", pb), ("prompt-on-a-terminal", if ctx.flavour == Flavour::Rel { directed().len() as u64 + ctx.tier.pick(120, 3_000) } else { 0 })])
     }
 
     fn alphabet_session(i: u64, len: usize) -> Vec<Line> {
@@ -304,7 +304,7 @@ impl C17 {
         let mut r = Rng::for_case(ctx.seed, 1700 + f as u64, i);
         let s = match name {
             // (interpreted by Miri, the sessions with tens of kilobytes of code would take hours)
-            "directed" if ctx.flavour == Flavour::Miri && directed()[i as usize].1.iter().any(|t| t.len() > 5_000) => vec![Line { text: "1".to_string(), budget: None }],
+            "directed" if ctx.flavour == Flavour::Miri && (directed()[i as usize].1.len() > 2_000 || directed()[i as usize].1.iter().any(|t| t.len() > 5_000)) => vec![Line { text: "1".to_string(), budget: None }],
             "directed" => directed()[i as usize].1.iter().map(|t| Line { text: t.to_string(), budget: None }).collect(),
             "len-1" => Self::alphabet_session(i, 1),
             "len-2" => Self::alphabet_session(i, 2),
@@ -328,6 +328,14 @@ impl C17 {
                 }
             }
             "valgrind-prompt" => {
+                let d = directed();
+                if (i as usize) < d.len() {
+                    d[i as usize].1.iter().map(|t| Line { text: t.to_string(), budget: None }).collect()
+                } else {
+                    random_session(&mut r).into_iter().map(|l| Line { text: l.text, budget: None }).collect()
+                }
+            }
+            "prompt-on-a-terminal" => {
                 let d = directed();
                 if (i as usize) < d.len() {
                     d[i as usize].1.iter().map(|t| Line { text: t.to_string(), budget: None }).collect()
@@ -388,6 +396,69 @@ impl C17 {
     /// prompt and the errors it reports must be exactly what the retained Compiler + VM pair of this harness — the
     /// thing every other family judges — yields line by line. (The prompt is the user-facing form of this property;
     /// a defect in src/bin/nederlang.rs itself is visible only here.)
+    /// The session typed at the prompt of the shipped binary sitting on a pseudo-terminal (stdin, stdout and stderr are
+    /// terminals), against the same session piped in: the bytes written must be the same. (What the prompt prints is
+    /// judged by `prompt_binary`; this one is about the prompt behaving differently when a person sits in front of it.)
+    fn prompt_on_terminal(&self, lines: &[Line], st: &mut Stats) {
+        let bin_s = format!("{}/harness/target-repo/release/nederlang", crate::sup::root());
+        let helper = format!("{}/tools/pty_session.py", crate::sup::root());
+        if !std::path::Path::new(&bin_s).exists() || !std::path::Path::new(&helper).exists() {
+            st.inconclusive(format!("{} or {} is missing", bin_s, helper));
+            return;
+        }
+        // a terminal hands over at most 4 095 bytes per line; endless loops have no budget at the prompt
+        if lines.iter().any(|l| l.text.len() > 2_000 || l.text.contains("zolang ja") || l.text.contains('\r') || l.text.contains('\n') || l.text.contains('\u{4}')) {
+            st.count("prompt-on-a-terminal:skipped-long-or-endless-line");
+            return;
+        }
+        let (obs_lines, events) = run_session_real(lines, ShadowMode::Off, false);
+        if obs_lines.len() != lines.len() || !events.is_empty() || obs_lines.iter().any(|o| !matches!(o.outcome, Outcome::Value(_) | Outcome::Error(..))) {
+            st.count("prompt-on-a-terminal:skipped-in-process-anomaly");
+            return;
+        }
+        let path = format!("{}/pty-{}-{}.txt", crate::sup::scratch_dir(), std::process::id(), crate::rng::hash_str(&session_text(lines)));
+        let mut body = String::new();
+        for l in lines {
+            body.push_str(&l.text);
+            body.push('\n');
+        }
+        if std::fs::write(&path, &body).is_err() {
+            return;
+        }
+        let piped = std::process::Command::new("bash").arg("-c").arg("ulimit -S -t 20; ulimit -H -t 30; exec timeout 600 \"$0\" < \"$1\" 2>&1").arg(&bin_s).arg(&path).stdin(std::process::Stdio::null()).output();
+        let typed = std::process::Command::new("bash").arg("-c").arg("ulimit -S -t 20; ulimit -H -t 30; exec timeout 600 python3 \"$0\" \"$1\" \"$2\"").arg(&helper).arg(&bin_s).arg(&path).stdin(std::process::Stdio::null()).output();
+        let _ = std::fs::remove_file(&path);
+        st.evaluations += 2;
+        let (piped, typed) = match (piped, typed) {
+            (Ok(a), Ok(b)) => (a, b),
+            _ => {
+                st.inconclusive("the prompt or the terminal helper could not be started".to_string());
+                return;
+            }
+        };
+        let status = String::from_utf8_lossy(&typed.stderr).lines().last().unwrap_or("").to_string();
+        if status == "status=timeout" || typed.status.code() == Some(124) || piped.status.code() == Some(124) {
+            st.count("case-inconclusive:terminal-watchdog");
+            return;
+        }
+        if !status.starts_with("status=") {
+            st.inconclusive(format!("the terminal helper failed: {}", crate::obs::clip(&String::from_utf8_lossy(&typed.stderr), 200)));
+            return;
+        }
+        st.count("prompt-on-a-terminal:sessions");
+        st.add("prompt-on-a-terminal:lines", lines.len() as u64);
+        if piped.status.code() != Some(0) {
+            // (the piped prompt ending abnormally is prompt_binary's finding)
+            st.count("prompt-on-a-terminal:skipped-piped-run-abnormal");
+            return;
+        }
+        if status != "status=0" {
+            st.violation("prompt-on-a-terminal:abnormal-end", format!("typed at a terminal, the prompt ended with {} (piped: normally); it wrote\n{}", status, crate::obs::clip(&String::from_utf8_lossy(&typed.stdout), 500)), &session_text(lines));
+        } else if typed.stdout != piped.stdout {
+            st.violation("prompt-on-a-terminal:differs-from-the-pipe", format!("typed at a terminal the prompt wrote\n{}\npiped in (stdout and stderr together) it wrote\n{}", crate::obs::clip(&String::from_utf8_lossy(&typed.stdout), 500), crate::obs::clip(&String::from_utf8_lossy(&piped.stdout), 500)), &session_text(lines));
+        }
+    }
+
     fn prompt_binary(&self, lines: &[Line], st: &mut Stats) {
         let bin_s = format!("{}/harness/target-repo/release/nederlang", crate::sup::root());
         if !std::path::Path::new(&bin_s).exists() {
@@ -531,14 +602,41 @@ pub fn directed() -> Vec<(&'static str, Vec<&'static str>)> {
         ("retyped-after-a-run-time-error-then-much-code", vec!["stel f = functie() { 1 }; [1][5]", "stel g = functie() { 42 }", bulk_statements(), "stel x = 7", "g()", "f()", "[x, g(), f()]"]),
         // more code than a 16-bit offset can address, in one session
         ("calls-behind-64k-of-code", vec!["functie som(a, b) { a + b }", bulk_statements(), bulk_statements(), "som(20, 1)", "stel i = 0; zolang i < 3 { i += 1 }; i", "functie laat(x) { als x > 1 { antwoord x * 2 }; x }", "[laat(1), laat(2), som(1, 2)]", bulk_array(), "stel j = 0; stel n = 0; zolang j < 4 { j += 1; als j == 2 { volgende }; als j == 4 { stop }; n += 1 }; [j, n, laat(5)]"]),
+        // tens of thousands of refused lines, each with a literal of its own: they leave nothing behind (the constant pool
+        // holds 65 535 entries)
+        ("many-refused-lines", many_refused_lines()),
+        // (known finding: the code of a line that fails while running stays in the session)
+        ("run-time-failures-leave-their-code", vec!["stel a = 1", bulk_statements_failing(), bulk_statements_failing(), "a", "als a == 1 { 2 } anders { 3 }", "a + 1"]),
         ("functions-on-both-sides-of-much-code", vec!["stel a = functie(x) { x + 1 }", bulk_statements(), "stel b = functie(x) { a(x) * 2 }", bulk_statements(), "stel c = functie(x) { b(x) - 1 }", bulk_statements(), "[a(1), b(1), c(1)]", "a = functie(x) { x + 100 }", "[a(1), b(1), c(1)]"]),
     ]
+}
+
+fn many_refused_lines() -> Vec<&'static str> {
+    static S: std::sync::OnceLock<Vec<String>> = std::sync::OnceLock::new();
+    let v = S.get_or_init(|| {
+        let mut v = vec!["stel a = 70001".to_string(), "stel t = \"tekst\"".to_string()];
+        for i in 0..65_600 {
+            v.push(match i % 3 {
+                0 => format!("{} + bestaatniet", 100_000 + i),
+                1 => format!("\"tekst {}\" + bestaatniet", i),
+                _ => format!("{}.25 + bestaatniet", i),
+            });
+        }
+        v.push("stel c = 70002".to_string());
+        v.push("[a + 1, c, t, \"nieuw\", 0.75]".to_string());
+        v
+    });
+    v.iter().map(|s| s.as_str()).collect()
 }
 
 /// one line of 9 000 statements (36 KB of code) / one declaration of an 11 000-element array literal (33 KB of code)
 fn bulk_statements() -> &'static str {
     static S: std::sync::OnceLock<String> = std::sync::OnceLock::new();
     S.get_or_init(|| format!("{}8", "0; ".repeat(9_000))).as_str()
+}
+fn bulk_statements_failing() -> &'static str {
+    static S: std::sync::OnceLock<String> = std::sync::OnceLock::new();
+    S.get_or_init(|| format!("{}[1][5]", "0; ".repeat(9_000))).as_str()
 }
 fn bulk_array() -> &'static str {
     static S: std::sync::OnceLock<String> = std::sync::OnceLock::new();
@@ -793,11 +891,30 @@ impl C17 {
         // would be as the last line of the one program. The session is judged up to the first such line.
         let mut lines = lines;
         if let Some(l) = obs_lines.iter().position(|o| matches!(&o.outcome, Outcome::Error(crate::val::ErrKind::Syntax, m) if m.contains("programma is te groot"))) {
-            let code_so_far: usize = lines[..l].iter().map(|x| x.text.len()).sum();
-            if code_so_far > 40_000 {
+            // … provided the one program made of the successful lines and this one really is too big
+            let mut program = String::new();
+            for (k, o) in obs_lines[..l].iter().enumerate() {
+                if matches!(o.outcome, Outcome::Value(_)) && !lines[k].text.trim().is_empty() {
+                    program.push_str(&lines[k].text);
+                    program.push_str(";\n");
+                }
+            }
+            program.push_str(&lines[l].text);
+            let whole = obs::eval_observed(&program, &obs::ObsCfg::plain(RUNAWAY_BUDGET));
+            if matches!(&whole.outcome, Outcome::Error(crate::val::ErrKind::Syntax, m) if m.contains("programma is te groot")) {
                 st.count("sessions-judged-up-to-the-code-size-limit");
                 lines = &lines[..l];
                 obs_lines.truncate(l);
+            } else {
+                // (two different causes: what refused lines left behind — nothing, since fix e380644 — and the code of lines
+                //  that were accepted and then failed while running, which stays: known finding, DESIGN §13)
+                let after_run_time_failures = obs_lines[..l].iter().any(|o| o.stage == "run" && !matches!(o.outcome, Outcome::Value(_)));
+                st.violation(
+                    &format!("{}:size-limit-although-the-one-program-is-small:{}", fam, if after_run_time_failures { "after-lines-that-failed-while-running" } else { "after-refused-lines-only" }),
+                    format!("line {} was refused with {}; the one program made of the {} successful lines before it and this line gives {}", l + 1, obs_lines[l].outcome.render(), obs_lines[..l].iter().filter(|o| matches!(o.outcome, Outcome::Value(_))).count(), crate::obs::clip(&whole.outcome.render(), 200)),
+                    &crate::obs::clip(&text, 2_000),
+                );
+                return false;
             }
         }
         // a line without a cut that ran into the runaway bound: a generated loop that does not end — not a session to judge
@@ -1042,6 +1159,15 @@ impl Check for C17 {
             let (_, _, i) = self.fams(ctx).locate(idx);
             let name = directed()[i as usize].0;
             self.judge(&lines, &format!("directed:{}", name), ctx, st);
+            return;
+        }
+        if lines.len() > 2_000 && fam != "directed" {
+            // (in process only: under valgrind or typed at a terminal a session of 65 000 lines takes minutes)
+            st.count("sessions-skipped-in-this-family:too-many-lines");
+            return;
+        }
+        if fam == "prompt-on-a-terminal" {
+            self.prompt_on_terminal(&lines, st);
             return;
         }
         if fam == "prompt-binary" {
